@@ -103,6 +103,13 @@ def check(ctx):
         for g in gmps:
             for r_ in range(reps):
                 jobs.append(("diff", "pair%d" % k, ["diff", "--no-sandbox", po, pn], os.path.dirname(po), g, r_))
+    # (c) diff on pairs whose functions differ by control flow only (exchanged arms, moved subtrees of decision
+    # trees): the zipper's control-flow consistency pass walks its instruction maps there
+    import c09
+    for k, cf in enumerate(c09.control_flow_pairs(ctx)):
+        for g in gmps:
+            for r_ in range(reps + 1):
+                jobs.append(("diff", "cfpair%d" % k, ["diff", "--no-sandbox", cf["old"], cf["new"]], os.path.dirname(cf["old"]), g, r_))
     from concurrent.futures import ThreadPoolExecutor
 
     # runs that share a Pebble database must not overlap (the store takes a LOCK file): group the
